@@ -423,6 +423,25 @@ func checkC04(c *Ctx, r *Report) {
 	// is the negotiated one at its specified length — a hash truncated to nothing accepts an empty
 	// AuthCode (tables shared with C01–C03, C12)
 	checkAlgorithmTables(c, r)
+
+	// "such datagrams are treated as if no valid response had arrived": the errors that say a
+	// reply was rejected are not turned into success further up — every context-taking method of
+	// the session examines the errors it is given (rule shared with C13)
+	{
+		var fns []*ssa.Function
+		v2s := c.Named("", "V2Session")
+		for _, fn := range c.ctxFuncs() {
+			if rn := recvNamed(fn); rn != nil && v2s != nil && rn.Obj() == v2s.Obj() {
+				fns = append(fns, fn)
+			}
+		}
+		for _, s := range c.SendClosures() {
+			if s.Session {
+				fns = append(fns, s.Fn)
+			}
+		}
+		checkErrorsExamined(c, r, "errors-examined", "every context-taking method of the session, and the in-session operation handed to backoff.Retry, returns success only on paths where every error a module call returned was compared with nil", 5, fns)
+	}
 }
 
 // phiCountsFromOne: phi with one constant edge 1 and one edge phi+1.
